@@ -288,7 +288,11 @@ impl SubCase {
                 let (w, h) = self.dims();
                 let luma = expand_codes(self.cfg.bit_depth, *stratum, *seed, w * h);
                 let chroma = expand_codes(self.cfg.bit_depth, stratum.wrapping_add((*seed % 3) as u8), mix64(*seed), self.bw * self.bh);
-                [luma.iter().map(|c| c[0]).collect(), chroma.iter().map(|c| c[1]).collect(), chroma.iter().map(|c| c[2]).collect()]
+                let mut planes: [Vec<u16>; 3] = [luma.iter().map(|c| c[0]).collect(), chroma.iter().map(|c| c[1]).collect(), chroma.iter().map(|c| c[2]).collect()];
+                if seed % 4 == 1 {
+                    crate::gen::correlate_plane_rows(&mut planes, [(w, h), (self.bw, self.bh), (self.bw, self.bh)], *seed);
+                }
+                planes
             }
         }
     }
